@@ -13,10 +13,28 @@ package main
 
 import (
 	"fmt"
+	"go/token"
 	"go/types"
 
 	"golang.org/x/tools/go/ssa"
 )
+
+// localAddr: the address of a local variable or of a field or element of one.
+func localAddr(a ssa.Value) bool {
+	for i := 0; i < 6; i++ {
+		switch x := a.(type) {
+		case *ssa.Alloc:
+			return true
+		case *ssa.FieldAddr:
+			a = x.X
+		case *ssa.IndexAddr:
+			a = x.X
+		default:
+			return false
+		}
+	}
+	return false
+}
 
 var ruleErrFirst = &Rule{
 	Name: "R-ERRFIRST", NeedSSA: true,
@@ -56,6 +74,13 @@ var ruleErrFirst = &Rule{
 							switch x := r.(type) {
 							case *ssa.DebugRef:
 								continue
+							case *ssa.Store:
+								// an assignment to a local variable or a field of one
+								// (`idx.from, err = f()`) moves the value, it does not
+								// read it
+								if x.Val == v && localAddr(x.Addr) {
+									continue
+								}
 							case *ssa.MakeInterface, *ssa.ChangeType, *ssa.ChangeInterface, *ssa.Convert:
 								// a conversion on the way: judged where the converted value is used
 								if isNil, _ := nilFact(factsAt(r.Block()), ev); !isNil {
@@ -119,6 +144,32 @@ var ruleErrFirst = &Rule{
 								}
 							}
 							if isNil, _ := nilFact(factsAt(r.Block()), ev); isNil {
+								continue
+							}
+							// `v, ok, err := f()`: where the callee sets ok only with a
+							// nil error, the ok branch is as good as err == nil; and
+							// branching on ok itself reads nothing
+							if _, isIf := r.(*ssa.If); isIf {
+								continue
+							}
+							if u, ok := r.(*ssa.UnOp); ok && u.Op == token.NOT {
+								onlyIf := true
+								for _, uu := range *u.Referrers() {
+									if _, isIf := uu.(*ssa.If); !isIf {
+										onlyIf = false
+									}
+								}
+								if onlyIf {
+									continue
+								}
+							}
+							okBranch := false
+							for _, f := range factsAt(r.Block()) {
+								if ex, ok := f.Cond.(*ssa.Extract); ok && ex.Tuple == ssa.Value(c) && f.Truth && okImpliesNoError(c.Call.StaticCallee(), ex.Index) {
+									okBranch = true
+								}
+							}
+							if okBranch {
 								continue
 							}
 							// a comparison that only decides a branch reads nothing out
